@@ -416,6 +416,45 @@ Definition actor_accepts (tbl : list variant) (m : smsg) : bool :=
 Definition job_actor_accepts (kt : ty) (tbl : list variant) (m : smsg) : bool :=
   match job_deserialize kt tbl m with JOk _ _ _ _ => true | _ => false end.
 
+(* ---------- primitive message types (ractor/src/message.rs: the blanket impl of Message for
+   every BytesConvertable type: a cast with an empty variant name; anything but a cast is an
+   error; the conversion may panic) and message types that are not serializable at all ---------- *)
+
+Inductive pres := PErr | PPanic | POk (v : val).
+
+Definition prim_serialize (t : ty) (v : val) : smsg := SCast [] (encode t v) None.
+
+Definition prim_deserialize (t : ty) (m : smsg) : pres :=
+  match m with
+  | SCast _ args _ => match decode t args with Some v => POk v | None => PPanic end
+  | _ => PErr
+  end.
+
+(* an actor of a primitive message type handles exactly the casts whose bytes convert *)
+Definition prim_actor_accepts (t : ty) (m : smsg) : bool :=
+  match prim_deserialize t m with POk _ => true | _ => false end.
+
+(* Message::deserialize's default (types that are not network serializable): always an error *)
+Definition plain_deserialize (m : smsg) : option unit := None.
+
+(* Job<K, primitive> *)
+Inductive jpres := JPErr | JPPanic | JPOk (k : val) (o : jdec) (v : val).
+
+Definition job_prim_deserialize (kt t : ty) (m : smsg) : jpres :=
+  match m with
+  | SReply => JPErr
+  | _ =>
+    match deser_meta kt (smsg_meta m) with
+    | MErr => JPErr
+    | MPanic => JPPanic
+    | MOk k o => match prim_deserialize t m with
+                 | POk v => JPOk k o v
+                 | PPanic => JPPanic
+                 | PErr => JPErr
+                 end
+    end
+  end.
+
 (* ---------- framing-level acceptability (what the property names: unknown variant,
    short or trailing bytes, bad job metadata), independent of the user conversions ---------- *)
 
